@@ -243,7 +243,13 @@ class Ctx:
         self.obligations = []   # dict(rule, construct, fact, where)
         self.violations = []    # dict(rule, construct, message, where)
         self.notes = []
+        self.deferred = []      # analysis errors that do not stop the rule: the remaining obligations are still examined
         self.t0 = time.time()
+
+    def defer(self, rule, message):
+        """an obligation could not be decided (unrecognised shape): recorded, reported as ANALYSIS-ERROR (exit 2 unless a
+        violation is found), but the rule goes on so that recognised-and-wrong constructs are still reported"""
+        self.deferred.append(f"{rule}: {message}")
 
     def ok(self, rule, construct, fact="", where=""):
         self.obligations.append({"rule": rule, "construct": construct, "fact": str(fact)[:300],
